@@ -624,3 +624,6 @@ func RunOnce(main func(), prefix []int, maxSteps int, prune func(idx int, fp uin
 	s.chans = nil
 	return res
 }
+
+// Obs returns the observations logged so far in the running execution.
+func (s *Sched) Obs() []string { return s.obs }
